@@ -236,6 +236,10 @@ pub fn gen_manifest(rng: &mut Rng, dup_outputs: bool) -> AManifest {
                 if rng.chance(1, 6) { b.vars.push(("command".into(), gen_val(rng, &["bvar".to_string(), "in".to_string(), "x".to_string()], false))); }
                 if rng.chance(1, 8) { b.vars.push(("pool".into(), vec![Tok::Lit("p0".into())])); }
                 if rng.chance(1, 12) { b.vars.push(("x".into(), vec![Tok::Lit("shadow".into())])); }
+                // build-block bindings named like the magic variables ($in/$out always win inside rule bindings),
+                // and build-block values that mention $in/$out (expanded in FILE scope, not with the step's lists)
+                if rng.chance(1, 10) { b.vars.push((rng.pick(&["in", "out", "in_newline", "out_newline"]).to_string(), vec![Tok::Lit("SHADOW".into())])); }
+                if rng.chance(1, 10) { b.vars.push(("bvar".into(), vec![Tok::Lit("-c ".into()), Tok::Var("in".into()), Tok::Lit(" -o ".into()), Tok::Var("out".into())])); }
                 AStmt::Build(b)
             }
             9 => if outputs.is_empty() { AStmt::Blank } else { AStmt::Default(vec![vec![Tok::Lit(outputs[rng.below(outputs.len())].clone())]]) },
